@@ -1,0 +1,48 @@
+//go:build verif
+
+package ord
+
+// Modular contracts for ord.Tuple{N} (C10, C14): arity N is verified against
+// the CONTRACT of arity N-1 (option assume), so the cost per arity is constant.
+//   func contract: Less / Eqv of the result are the flat lexicographic order /
+//   the conjunction of the component equalities; Compare, LessEq, Min, Max are
+//   consistent with them.
+//   lemma tuple{N}Laws: from those characterisations and the laws of the
+//   components, the result is a strict total order.
+
+//@ import "github.com/csgura/fp/internal/veriflaws"
+//
+//@ schema N=2..21
+//@ func Tuple{N}(<<i=1..N|, |ins$i>>) result
+//@   prop C10 C14
+//@   option summary
+//@   option assume=Tuple{N-1}
+//@   inst <<i=0..N-1|, |VT_$i>>
+//@   inst <<i=1..N|, |VT_$i>>
+//@   requires <<i=1..N| && |veriflaws.OrdCore(ins$i)>>
+//@   ensures forall x, y fp.Tuple{N}[<<i=1..N|, |A$i>>] :: result.Less(x, y) == (<<k=1..N-1||ins$k.Less(x.I$k, y.I$k) || (ins$k.Eqv(x.I$k, y.I$k) && (>>ins{N}.Less(x.I{N}, y.I{N})<<k=1..N-1||))>>)
+//@   tag lexicographic
+//@   ensures forall x, y fp.Tuple{N}[<<i=1..N|, |A$i>>] :: result.Eqv(x, y) == (<<i=1..N| && |ins$i.Eqv(x.I$i, y.I$i)>>)
+//@   tag componentwiseEqv
+//@   ensures forall x, y fp.Tuple{N}[<<i=1..N|, |A$i>>] :: (result.Compare(x, y) < 0) == result.Less(x, y) && (result.Compare(x, y) == 0) == result.Eqv(x, y) && (result.Compare(x, y) > 0) == result.Less(y, x)
+//@   tag compare
+//@   ensures forall x, y fp.Tuple{N}[<<i=1..N|, |A$i>>] :: result.LessEq(x, y) == (result.Less(x, y) || result.Eqv(x, y))
+//@   tag lessEq
+//@   ensures forall x, y fp.Tuple{N}[<<i=1..N|, |A$i>>] :: (result.Less(x, y) ==> Eq(result.Min(x, y), x) && Eq(result.Max(x, y), y)) && (result.Less(y, x) ==> Eq(result.Min(x, y), y) && Eq(result.Max(x, y), x)) && ((Eq(result.Min(x, y), x) && Eq(result.Max(x, y), y)) || (Eq(result.Min(x, y), y) && Eq(result.Max(x, y), x)))
+//@   tag minmax
+//
+//@ lemma tuple{N}Laws[<<i=1..N|, |A$i>> any](<<i=1..N|, |o$i fp.Ord[A$i]>>, x fp.Tuple{N}[<<i=1..N|, |A$i>>], y fp.Tuple{N}[<<i=1..N|, |A$i>>], z fp.Tuple{N}[<<i=1..N|, |A$i>>])
+//@   prop C10
+//@   option assume=Tuple{N}
+//@   requires <<i=1..N| && |veriflaws.OrdCore(o$i)>>
+//@   ensures Tuple{N}(<<i=1..N|, |o$i>>).Eqv(x, x)
+//@   tag refl
+//@   ensures Tuple{N}(<<i=1..N|, |o$i>>).Eqv(x, y) == Tuple{N}(<<i=1..N|, |o$i>>).Eqv(y, x)
+//@   tag sym
+//@   ensures Tuple{N}(<<i=1..N|, |o$i>>).Eqv(x, y) && Tuple{N}(<<i=1..N|, |o$i>>).Eqv(y, z) ==> Tuple{N}(<<i=1..N|, |o$i>>).Eqv(x, z)
+//@   tag trans
+//@   ensures veriflaws.ExactlyOne(Tuple{N}(<<i=1..N|, |o$i>>).Less(x, y), Tuple{N}(<<i=1..N|, |o$i>>).Less(y, x), Tuple{N}(<<i=1..N|, |o$i>>).Eqv(x, y))
+//@   tag trichotomy
+//@   ensures Tuple{N}(<<i=1..N|, |o$i>>).Less(x, y) && Tuple{N}(<<i=1..N|, |o$i>>).Less(y, z) ==> Tuple{N}(<<i=1..N|, |o$i>>).Less(x, z)
+//@   tag lessTrans
+//@ schema end
